@@ -320,7 +320,7 @@ let simple_check (o : toracles) (items : string list) (toks : tok list) hand : s
         let r = next_reply () in
         let rep = Reply (n_of_int r) in
         if starts_with u "HELO " || starts_with u "EHLO " then begin
-          if r = 250 then emit [Note NBoundary; Note NHelo; rep] else raise Not_simple;
+          if r = 250 then emit [Note NBoundary; Note NHelo; Note (NEsmtp (starts_with u "EHLO ")); rep] else raise Not_simple;
           if peek_tok "O" then evs := !evs @ [TOffer];
           go rest end
         else if starts_with u "MAIL FROM:" then begin
